@@ -143,8 +143,15 @@ func vfC01Check(run *vfkit.Run, top vfTop, w vfC01Witness, build func(g *vfGen) 
 		}
 	}
 	// the same bytes inside a stream, through NextPacket
-	if top.viaStream != "" && eqOK {
-		hdr := `<stream:stream xmlns="` + top.viaStream + `" xmlns:stream="` + NSStream + `">`
+	streams := []string{top.viaStream}
+	if top.viaStream == NSClient && (top.name == "Message" || top.name == "Presence" || top.name == "IQ") {
+		streams = append(streams, NSComponent) // the same stanzas travel on component streams
+	}
+	for _, streamNS := range streams {
+		if streamNS == "" || !eqOK {
+			continue
+		}
+		hdr := `<stream:stream xmlns="` + streamNS + `" xmlns:stream="` + NSStream + `">`
 		pkt, err := vfNextPacketSafe(hdr, b1)
 		if err != nil {
 			w.Detail = err.Error()
